@@ -24,13 +24,16 @@ import (
 	"fmt"
 	"os"
 	"sort"
+	"strings"
 	"sync"
 	"testing"
+	"time"
 
 	"github.com/WuKongIM/WuKongIM/internal/verifsim/simkit"
 	"github.com/WuKongIM/WuKongIM/pkg/cluster/propose"
 	"github.com/WuKongIM/WuKongIM/pkg/cluster/routing"
 	metadb "github.com/WuKongIM/WuKongIM/pkg/db/meta"
+	"github.com/WuKongIM/WuKongIM/pkg/protocol/channelid"
 	metafsm "github.com/WuKongIM/WuKongIM/pkg/slot/fsm"
 	"github.com/WuKongIM/WuKongIM/pkg/slot/multiraft"
 )
@@ -40,21 +43,26 @@ func TestVerifSimEventCache(t *testing.T) {
 	simkit.Main(t, simkit.Engine{
 		Name: "eventcachesim",
 		Props: map[string]simkit.PropFunc{
-			"C40cache": func(t *testing.T, r *simkit.Run) { runEventCache(r) },
+			"C40cache": func(t *testing.T, r *simkit.Run) { runEventCache(r, false) },
+			// the same world with the real message use case and production adapter in front
+			"C40usecase": func(t *testing.T, r *simkit.Run) { runEventCache(r, true) },
 		},
 		Real: []string{
 			"cluster.messageEventStreamCache (append, dedupe, terminal merge, mark persisted, open states for finish, eviction, restore pause/resume, authority-loss clearing)",
 			"cluster.Node.appendMessageEventLocal / appendMessageEventFinishLocal / appendMessageEventDurable on a partially initialised Node (routing table, cache, proposer)",
 			"routing.Router and Node.updateRouteAuthorityTable (leader change path)",
 			"pkg/slot/fsm state machine + pkg/db/meta event reducer behind the proposer (Pebble on a real temporary directory)",
+			"C40usecase only: internal/usecase/message.App.AppendMessageEvent over the production adapter internal/infra/cluster.MessageEventStore (error mapping) over Node.AppendMessageEvent on the entry node",
 		},
 		Stub: []string{
 			"Node.proposer (the simulator applies the command to the slot state machine; may fail before or after the commit)",
 			"everything else of cluster.Node (transport, controller, slot runtime, finish coalescer disabled)",
 			"clients / two leaders taking turns",
+			"C40usecase only: the forward RPC from a non-leader entry node to the leader (the simulator calls the leader's handler path appendMessageEventLocal; it may fail before delivery or lose the response)",
 		},
 		Rule: "One run = one tape-driven stream history (open, delta, snapshot, close, error, cancel, finish, retries) for 1-3 messages sent to whichever of two nodes the client believes is leader, " +
-			"with leader changes, restore pause/resume, proposal failures and small cache capacities. Non-trivial = at least one finish was decided AND (a cache loss, a proposal fault or a capacity rejection happened).",
+			"with leader changes, restore pause/resume, proposal failures and small cache capacities. Non-trivial = at least one finish was decided AND (a cache loss, a proposal fault, a forward fault, a cancelled caller or a capacity rejection happened). " +
+			"C40usecase sends the same histories through the message use case on either node (group or person conversation addressed from both peers, untrimmed fields, zero UpdatedAt, malformed requests, cancelled contexts) and additionally judges what the caller is told.",
 		Assumptions: []string{
 			"a partially initialised cluster.Node is enough for the message-event leader path (fields used: cfg.NodeID, router, messageEventStreamCache, proposer, started)",
 			"the finish coalescer is disabled (direct path); the slot Raft group is replaced by a single state machine",
@@ -196,6 +204,105 @@ type ecsWorld struct {
 	losses    int
 	rejected  int
 	clock     int64
+	chanType  int64
+
+	// ---- C40usecase: the message use case (internal/usecase/message) in front of the nodes ----
+	usecase   bool
+	uidA      string // person-channel runs: the two peers; group runs: the sender
+	uidB      string
+	callers   map[uint64]func(context.Context, VerifUsecaseEvent) (VerifUsecaseResult, error) // one App per entry node
+	entry     uint64
+	nowMs     int64
+	portCalls int
+	portFault string // "", "before" (forward failed, nothing happened), "after" (leader processed it, response lost)
+	innerRes  metadb.MessageEventAppendResult
+	innerErr  error
+	portSeen  metadb.MessageEventAppend
+	first     map[string][3]string // msg|event id -> lane, seq, status of the first durable success
+}
+
+func (w *ecsWorld) msgKey(msg string) metadb.MessageEventMessageKey {
+	return metadb.MessageEventMessageKey{ChannelID: w.channel, ChannelType: w.chanType, ClientMsgNo: msg}
+}
+
+// ---- hooks for the external half of the engine (package cluster_test), which may
+// import internal/usecase/message and the production adapter internal/infra/cluster ----
+
+// VerifUsecaseEvent is one caller request to the message use case.
+type VerifUsecaseEvent struct {
+	Ev        metadb.MessageEventAppend
+	FromUID   string
+	MessageID uint64
+}
+
+// VerifUsecaseResult is what the caller got back.
+type VerifUsecaseResult struct {
+	Res       metadb.MessageEventAppendResult
+	FromUID   string
+	MessageID uint64
+}
+
+// VerifEventNodePort is the shape of the cluster facade the production adapter expects.
+type VerifEventNodePort interface {
+	AppendMessageEvent(context.Context, metadb.MessageEventAppend) (metadb.MessageEventAppendResult, error)
+	GetMessageEventStatesBatch(context.Context, []metadb.MessageEventMessageKey, int) (map[metadb.MessageEventMessageKey][]metadb.MessageEventState, error)
+}
+
+// VerifUsecaseFactory is set by the external test package: it builds the real
+// message.App over the real infra adapter over the given node port.
+var VerifUsecaseFactory func(port VerifEventNodePort, now func() time.Time) func(context.Context, VerifUsecaseEvent) (VerifUsecaseResult, error)
+
+// ecsPort is "the cluster as seen from entry node X": the local path is the real
+// Node.AppendMessageEvent; the forward to the leader is the simulated network.
+type ecsPort struct {
+	w     *ecsWorld
+	entry uint64
+}
+
+var errSimForward = errors.New("sim: forward to slot leader failed")
+
+func (p *ecsPort) AppendMessageEvent(ctx context.Context, ev metadb.MessageEventAppend) (metadb.MessageEventAppendResult, error) {
+	w := p.w
+	w.portCalls++
+	w.portSeen = ev
+	if p.entry == w.leader {
+		res, err := w.nodes[p.entry].AppendMessageEvent(ctx, ev)
+		w.innerRes, w.innerErr = res, err
+		return res, err
+	}
+	// what Node.AppendMessageEvent does before forwarding, then the leader's RPC handler
+	if err := ctx.Err(); err != nil {
+		w.innerErr = err
+		return metadb.MessageEventAppendResult{}, err
+	}
+	nev, err := normalizeClusterMessageEventAppend(ev)
+	if err != nil {
+		w.innerErr = err
+		return metadb.MessageEventAppendResult{}, err
+	}
+	fault := 0
+	if w.faults {
+		fault = w.r.Tape.Weighted([]int{10, 1, 1})
+	}
+	if fault == 1 {
+		w.r.Fault("forward_failed_before_delivery")
+		w.portFault = "before"
+		w.innerErr = errSimForward
+		return metadb.MessageEventAppendResult{}, errSimForward
+	}
+	w.r.Probe("forwarded_to_leader")
+	res, err := w.nodes[w.leader].appendMessageEventLocal(ctx, nev)
+	w.innerRes, w.innerErr = res, err
+	if fault == 2 {
+		w.r.Fault("forward_response_lost")
+		w.portFault = "after"
+		return metadb.MessageEventAppendResult{}, errSimForward
+	}
+	return res, err
+}
+
+func (p *ecsPort) GetMessageEventStatesBatch(context.Context, []metadb.MessageEventMessageKey, int) (map[metadb.MessageEventMessageKey][]metadb.MessageEventState, error) {
+	return nil, errors.New("sim: reads are not part of this engine")
 }
 
 func ecsNewNode(w *ecsWorld, id uint64, maxSessions int) *Node {
@@ -284,7 +391,7 @@ func (w *ecsWorld) capacityAllows(id uint64) (bool, bool) {
 
 func (w *ecsWorld) durableStates(msg string) map[string]metadb.MessageEventState {
 	hs := routing.HashSlotForKey(w.channel, 2)
-	states, err := ecsDB.ForHashSlot(hs).ListMessageEventStates(context.Background(), w.channel, 2, msg, 100)
+	states, err := ecsDB.ForHashSlot(hs).ListMessageEventStates(context.Background(), w.channel, w.chanType, msg, 100)
 	if err != nil {
 		w.r.Infra("ListMessageEventStates: %v", err)
 		return nil
@@ -302,7 +409,7 @@ func (w *ecsWorld) checkCache(id uint64, when string) {
 	n := w.nodes[id]
 	obs := n.messageEventStreamCache.observation()
 	for _, msg := range w.msgs {
-		states := n.messageEventStreamCache.states(metadb.MessageEventMessageKey{ChannelID: w.channel, ChannelType: 2, ClientMsgNo: msg})
+		states := n.messageEventStreamCache.states(w.msgKey(msg))
 		ref := w.cache[id][msg]
 		if ref == nil {
 			if len(states) != 0 {
@@ -387,7 +494,7 @@ func (w *ecsWorld) genEvent() (metadb.MessageEventAppend, string) {
 	types := []string{metadb.EventTypeStreamDelta, metadb.EventTypeStreamOpen, metadb.EventTypeStreamSnapshot,
 		metadb.EventTypeStreamFinish, metadb.EventTypeStreamClose, metadb.EventTypeStreamError, metadb.EventTypeStreamCancel}
 	typ := types[t.Weighted([]int{12, 2, 2, 4, 2, 1, 1})]
-	ev := metadb.MessageEventAppend{ChannelID: w.channel, ChannelType: 2, ClientMsgNo: w.msgs[t.Intn(len(w.msgs))],
+	ev := metadb.MessageEventAppend{ChannelID: w.channel, ChannelType: w.chanType, ClientMsgNo: w.msgs[t.Intn(len(w.msgs))],
 		EventID: fmt.Sprintf("e%d", w.evCount), EventKey: ecsLaneKeys[t.Weighted([]int{3, 1, 1, 1})], EventType: typ,
 		Visibility: metadb.VisibilityPublic, OccurredAt: w.clock, UpdatedAt: w.clock}
 	switch typ {
@@ -471,7 +578,7 @@ func (w *ecsWorld) send(id uint64, ev metadb.MessageEventAppend, kind string) {
 	lane := ecsLaneOf(ev) // the lane this request names after normalisation
 	evN := ev
 	evN.EventKey = lane
-	cacheBefore := ecsStateMap(n.messageEventStreamCache.states(metadb.MessageEventMessageKey{ChannelID: w.channel, ChannelType: 2, ClientMsgNo: msg}))
+	cacheBefore := ecsStateMap(n.messageEventStreamCache.states(w.msgKey(msg)))
 	// what the reference says this leader has acknowledged into its cache and not yet made durable
 	type refOpenLane struct {
 		key, text string
@@ -485,9 +592,22 @@ func (w *ecsWorld) send(id uint64, ev metadb.MessageEventAppend, kind string) {
 			}
 		}
 	}
-	res, err := n.appendMessageEventLocal(context.Background(), ev)
-	r.Logf("send node%d %s %s id=%s msg=%s lane=%q pay=%s -> seq=%d status=%s err=%v", id, kind, ev.EventType, ev.EventID, msg, ev.EventKey, ev.Payload, res.MsgEventSeq, res.Status, err)
-	r.Steps++
+	var res metadb.MessageEventAppendResult
+	var err error
+	if w.usecase {
+		// the caller goes through the real use case and adapter; the oracles below then
+		// judge what the leader did, the use-case oracles what the caller was told
+		var proceed bool
+		res, err, proceed = w.invokeUsecase(ev, kind, before, cacheBefore)
+		r.Steps++
+		if !proceed || r.Failed() {
+			return
+		}
+	} else {
+		res, err = n.appendMessageEventLocal(context.Background(), ev)
+		r.Logf("send node%d %s %s id=%s msg=%s lane=%q pay=%s -> seq=%d status=%s err=%v", id, kind, ev.EventType, ev.EventID, msg, ev.EventKey, ev.Payload, res.MsgEventSeq, res.Status, err)
+		r.Steps++
+	}
 	if !isLeader {
 		if !errors.Is(err, ErrNotLeader) {
 			r.Fail("not-leader-accepted-event", fmt.Sprintf("node%d is not the leader (leader is node%d) but answered %v", id, w.leader, err), nil)
@@ -664,7 +784,7 @@ func (w *ecsWorld) send(id uint64, ev metadb.MessageEventAppend, kind string) {
 					return
 				}
 			}
-			cacheAfter := ecsStateMap(n.messageEventStreamCache.states(metadb.MessageEventMessageKey{ChannelID: w.channel, ChannelType: 2, ClientMsgNo: msg}))
+			cacheAfter := ecsStateMap(n.messageEventStreamCache.states(w.msgKey(msg)))
 			cb, hadB := cacheBefore[lane]
 			ca, hadA := cacheAfter[lane]
 			if hadB != hadA || (hadB && (cb.Status != ca.Status || string(cb.SnapshotPayload) != string(ca.SnapshotPayload))) {
@@ -713,7 +833,7 @@ func (w *ecsWorld) syncEvicted(id uint64) {
 		if s == nil || !s.allTerminal() {
 			continue
 		}
-		if len(n.messageEventStreamCache.states(metadb.MessageEventMessageKey{ChannelID: w.channel, ChannelType: 2, ClientMsgNo: msg})) == 0 {
+		if len(n.messageEventStreamCache.states(w.msgKey(msg))) == 0 {
 			delete(w.cache[id], msg)
 		}
 	}
@@ -779,7 +899,227 @@ func (w *ecsWorld) noteClientLoss(msg string, after map[string]metadb.MessageEve
 	delete(w.client, msg)
 }
 
-func runEventCache(r *simkit.Run) {
+// ---- C40usecase: what the CALLER of message.App.AppendMessageEvent observes ----
+
+func ucZero(c VerifUsecaseResult) bool {
+	return c.FromUID == "" && c.MessageID == 0 && c.Res.ChannelID == "" && c.Res.ChannelType == 0 && c.Res.ClientMsgNo == "" && c.Res.EventID == "" &&
+		c.Res.EventKey == "" && c.Res.MsgEventSeq == 0 && c.Res.Status == "" && c.Res.State.EventKey == "" && len(c.Res.State.SnapshotPayload) == 0
+}
+
+// unchanged verifies that neither the durable projection nor the leader's cache moved.
+func (w *ecsWorld) unchanged(why string, msg string, before, cacheBefore map[string]metadb.MessageEventState) {
+	after := w.durableStates(msg)
+	if len(after) != len(before) {
+		w.r.FailSig("usecase-refused-but-wrote", "durable", fmt.Sprintf("%s: the durable projection of %s went from %d to %d lanes", why, msg, len(before), len(after)), nil)
+		return
+	}
+	for _, k := range simkit.SortedKeys(after) {
+		if b, ok := before[k]; !ok || !ecsSameState(b, after[k]) {
+			w.r.FailSig("usecase-refused-but-wrote", "durable", fmt.Sprintf("%s: durable lane %q of %s changed from %+v to %+v", why, k, msg, b, after[k]), nil)
+			return
+		}
+	}
+	cacheAfter := ecsStateMap(w.nodes[w.leader].messageEventStreamCache.states(w.msgKey(msg)))
+	if len(cacheAfter) != len(cacheBefore) {
+		w.r.FailSig("usecase-refused-but-wrote", "cache", fmt.Sprintf("%s: the leader's cache of %s went from %d to %d lanes", why, msg, len(cacheBefore), len(cacheAfter)), nil)
+		return
+	}
+	for _, k := range simkit.SortedKeys(cacheAfter) {
+		b, a := cacheBefore[k], cacheAfter[k]
+		if b.Status != a.Status || string(b.SnapshotPayload) != string(a.SnapshotPayload) || b.LastEventID != a.LastEventID {
+			w.r.FailSig("usecase-refused-but-wrote", "cache", fmt.Sprintf("%s: cached lane %q of %s changed", why, k, msg), nil)
+			return
+		}
+	}
+}
+
+// clientForm dresses the canonical event the way a caller may send it.
+func (w *ecsWorld) clientForm(ev metadb.MessageEventAppend) (VerifUsecaseEvent, bool) {
+	t := w.r.Tape
+	u := VerifUsecaseEvent{Ev: ev, FromUID: w.uidA, MessageID: uint64(1000 + w.evCount)}
+	if w.chanType == 1 {
+		switch t.Intn(3) {
+		case 0: // the sender names its peer
+			u.Ev.ChannelID = w.uidB
+		case 1: // the peer answers on the same conversation
+			u.FromUID, u.Ev.ChannelID = w.uidB, w.uidA
+		case 2: // already canonical
+		}
+	}
+	if t.Chance(1, 4) {
+		// untrimmed / differently cased fields, as entry adapters may pass them
+		u.Ev.EventID = " " + u.Ev.EventID + " "
+		u.Ev.ClientMsgNo = u.Ev.ClientMsgNo + " "
+		u.Ev.EventType = " " + strings.ToUpper(u.Ev.EventType[:1]) + u.Ev.EventType[1:] + " "
+		if u.Ev.EventKey != "" {
+			u.Ev.EventKey = " " + u.Ev.EventKey
+		}
+		u.FromUID = " " + u.FromUID + " "
+		w.r.Probe("untrimmed_request")
+	}
+	zeroUpdated := t.Chance(1, 4)
+	if zeroUpdated {
+		u.Ev.UpdatedAt = 0
+	}
+	return u, zeroUpdated
+}
+
+// invokeUsecase sends ev through message.App on the current entry node. It returns what
+// the LEADER answered (for the cache / finish oracles) and whether those oracles apply.
+func (w *ecsWorld) invokeUsecase(ev metadb.MessageEventAppend, kind string, before, cacheBefore map[string]metadb.MessageEventState) (metadb.MessageEventAppendResult, error, bool) {
+	r, t := w.r, w.r.Tape
+	msg := ev.ClientMsgNo
+	u, zeroUpdated := w.clientForm(ev)
+	w.nowMs = 5000 + w.clock
+	ctx := context.Background()
+	cancelled := false
+	if w.faults && t.Chance(1, 14) {
+		c, cancel := context.WithCancel(ctx)
+		cancel()
+		ctx, cancelled = c, true
+		r.Fault("caller_context_cancelled")
+	}
+	callsBefore := w.portCalls
+	w.portFault, w.innerRes, w.innerErr = "", metadb.MessageEventAppendResult{}, nil
+	cres, cerr := w.callers[w.entry](ctx, u)
+	r.Logf("call entry=node%d leader=node%d %s %s id=%q msg=%q lane=%q from=%s canonical-channel=%v pay=%s -> seq=%d status=%s err=%v (leader: seq=%d status=%s err=%v fault=%q)", w.entry, w.leader, kind, ev.EventType,
+		u.Ev.EventID, u.Ev.ClientMsgNo, u.Ev.EventKey, map[bool]string{true: "A", false: "B"}[strings.TrimSpace(u.FromUID) == w.uidA], u.Ev.ChannelID == w.channel, ev.Payload, cres.Res.MsgEventSeq, cres.Res.Status, cerr, w.innerRes.MsgEventSeq, w.innerRes.Status, w.innerErr, w.portFault)
+	if cerr != nil && !ucZero(cres) {
+		r.Fail("usecase-result-on-error", fmt.Sprintf("the caller got error %v together with a non-empty result %+v", cerr, cres), nil)
+		return cres.Res, cerr, false
+	}
+	if w.portCalls != callsBefore+1 {
+		r.Fail("usecase-port-calls", fmt.Sprintf("a well-formed %s made %d calls to the event store, want 1 (err %v)", ev.EventType, w.portCalls-callsBefore, cerr), nil)
+		return cres.Res, cerr, false
+	}
+	// the request as the store received it: one canonical message identity and idempotency key
+	seen := w.portSeen
+	if seen.ChannelID != w.channel || seen.ChannelType != w.chanType {
+		r.Fail("usecase-channel-not-canonical", fmt.Sprintf("the store was asked for channel %q/%d, the canonical channel of this conversation is %q/%d (from %q, given %q)", seen.ChannelID, seen.ChannelType, w.channel, w.chanType, u.FromUID, u.Ev.ChannelID), nil)
+		return cres.Res, cerr, false
+	}
+	if seen.EventID != ev.EventID || seen.ClientMsgNo != ev.ClientMsgNo {
+		r.Fail("usecase-identity-changed", fmt.Sprintf("the store was asked for message %q event id %q, the caller sent %q / %q", seen.ClientMsgNo, seen.EventID, u.Ev.ClientMsgNo, u.Ev.EventID), nil)
+		return cres.Res, cerr, false
+	}
+	if zeroUpdated && seen.UpdatedAt != w.nowMs {
+		r.Fail("usecase-updated-at", fmt.Sprintf("UpdatedAt %d reached the store, want the use case clock %d", seen.UpdatedAt, w.nowMs), nil)
+		return cres.Res, cerr, false
+	}
+	if cancelled {
+		if !errors.Is(cerr, context.Canceled) {
+			r.FailSig("usecase-swallowed-error", "context", fmt.Sprintf("caller context was cancelled, the call answered %v", cerr), nil)
+			return cres.Res, cerr, false
+		}
+		w.unchanged("cancelled call", msg, before, cacheBefore)
+		return cres.Res, cerr, false
+	}
+	if w.portFault == "before" {
+		if cerr == nil {
+			r.FailSig("usecase-swallowed-error", "forward", "the forward to the leader failed, the caller was told success", nil)
+			return cres.Res, cerr, false
+		}
+		w.unchanged("failed forward", msg, before, cacheBefore)
+		return cres.Res, cerr, false
+	}
+	if w.innerErr != nil || w.portFault == "after" {
+		// fail closed: an error below must reach the caller as an error
+		if cerr == nil {
+			sig := "other"
+			if errors.Is(w.innerErr, ErrMessageEventStreamCacheMiss) {
+				sig = "cache-miss"
+			} else if w.portFault == "after" {
+				sig = "forward"
+			}
+			r.FailSig("usecase-swallowed-error", sig, fmt.Sprintf("the event store answered %v (fault %q) for %s %s, the caller was told success: %+v", w.innerErr, w.portFault, ev.EventType, ev.EventID, cres.Res), nil)
+			return cres.Res, cerr, false
+		}
+		if w.portFault == "" && !errors.Is(cerr, w.innerErr) {
+			r.Fail("usecase-error-replaced", fmt.Sprintf("the event store answered %v, the caller got %v which does not wrap it", w.innerErr, cerr), nil)
+			return cres.Res, cerr, false
+		}
+	} else {
+		if cerr != nil {
+			r.Fail("usecase-spurious-error", fmt.Sprintf("the event store accepted %s %s, the caller got %v", ev.EventType, ev.EventID, cerr), nil)
+			return cres.Res, cerr, false
+		}
+		in, got := w.innerRes, cres.Res
+		if got.ChannelID != w.channel || got.ClientMsgNo != ev.ClientMsgNo || got.EventID != ev.EventID || got.EventKey != in.EventKey || got.MsgEventSeq != in.MsgEventSeq || got.Status != in.Status ||
+			string(got.State.SnapshotPayload) != string(in.State.SnapshotPayload) || got.State.Status != in.State.Status {
+			r.Fail("usecase-result-mismatch", fmt.Sprintf("the caller got lane %q seq %d status %s payload %q, the event store answered lane %q seq %d status %s payload %q", got.EventKey, got.MsgEventSeq, got.Status, got.State.SnapshotPayload,
+				in.EventKey, in.MsgEventSeq, in.Status, in.State.SnapshotPayload), nil)
+			return cres.Res, cerr, false
+		}
+		if cres.FromUID != strings.TrimSpace(u.FromUID) || cres.MessageID != u.MessageID {
+			r.Fail("usecase-result-mismatch", fmt.Sprintf("the caller's FromUID/MessageID were %q/%d, the result echoes %q/%d", u.FromUID, u.MessageID, cres.FromUID, cres.MessageID), nil)
+			return cres.Res, cerr, false
+		}
+	}
+	// a caller retry with the same event id is answered with the first durable outcome
+	if w.innerErr == nil && !isMessageEventCacheOnlyEvent(ev.EventType) {
+		key := msg + "|" + ev.EventID
+		now := [3]string{w.innerRes.EventKey, fmt.Sprint(w.innerRes.MsgEventSeq), w.innerRes.Status}
+		if old, ok := w.first[key]; ok {
+			r.Probe("caller_retry_of_durable_event")
+			if old != now {
+				r.Fail("usecase-replay-result-differs", fmt.Sprintf("event id %s of %s was first answered lane %q seq %s status %s and now lane %q seq %s status %s", ev.EventID, msg, old[0], old[1], old[2], now[0], now[1], now[2]), nil)
+				return cres.Res, cerr, false
+			}
+		} else if w.innerRes.State.LastEventID == ev.EventID {
+			// remembered only when the reducer applied it: an id that met an already final
+			// lane is not recorded by the projection and is answered with that lane's state
+			w.first[key] = now
+		}
+	}
+	return w.innerRes, w.innerErr, true
+}
+
+// sendMalformed sends a request the use case must refuse before it reaches the store.
+func (w *ecsWorld) sendMalformed() {
+	r, t := w.r, w.r.Tape
+	msg := w.msgs[t.Intn(len(w.msgs))]
+	w.evCount++
+	u := VerifUsecaseEvent{FromUID: w.uidA, MessageID: 7, Ev: metadb.MessageEventAppend{ChannelID: w.channel, ChannelType: w.chanType, ClientMsgNo: msg,
+		EventID: fmt.Sprintf("bad%d", w.evCount), EventKey: "main", EventType: metadb.EventTypeStreamDelta, Payload: []byte(`{"kind":"text","delta":"!"}`), UpdatedAt: 1}}
+	what := []string{"no event id", "no client msg no", "no event type", "no channel id", "no channel type", "stranger on a person channel"}
+	k := t.Intn(len(what))
+	switch k {
+	case 0:
+		u.Ev.EventID = "  "
+	case 1:
+		u.Ev.ClientMsgNo = ""
+	case 2:
+		u.Ev.EventType = " "
+	case 3:
+		u.Ev.ChannelID = ""
+	case 4:
+		u.Ev.ChannelType = 0
+	case 5:
+		if w.chanType != 1 {
+			u.Ev.EventID = ""
+		} else {
+			u.FromUID = "stranger"
+		}
+	}
+	before := w.durableStates(msg)
+	cacheBefore := ecsStateMap(w.nodes[w.leader].messageEventStreamCache.states(w.msgKey(msg)))
+	calls := w.portCalls
+	cres, cerr := w.callers[w.entry](context.Background(), u)
+	r.Logf("call entry=node%d malformed (%s) -> err=%v", w.entry, what[k], cerr)
+	r.Steps++
+	r.Probe("malformed_request")
+	if cerr == nil || !ucZero(cres) {
+		r.Fail("usecase-accepted-malformed", fmt.Sprintf("a request with %s was answered err=%v result=%+v", what[k], cerr, cres), nil)
+		return
+	}
+	if w.portCalls != calls {
+		r.Fail("usecase-accepted-malformed", fmt.Sprintf("a request with %s reached the event store", what[k]), nil)
+		return
+	}
+	w.unchanged("malformed request", msg, before, cacheBefore)
+}
+
+func runEventCache(r *simkit.Run, usecase bool) {
 	if err := ecsOpen(); err != nil {
 		r.Infra("open durable side: %v", err)
 		return
@@ -787,7 +1127,25 @@ func runEventCache(r *simkit.Run) {
 	t := r.Tape
 	ecsExec++
 	w := &ecsWorld{r: r, nodes: map[uint64]*Node{}, paused: map[uint64]bool{}, cache: map[uint64]map[string]*ecsSession{1: {}, 2: {}}, client: map[string]map[string]*ecsClientLane{},
-		channel: fmt.Sprintf("ecs-%d-%d", os.Getpid(), ecsExec)}
+		channel: fmt.Sprintf("ecs-%d-%d", os.Getpid(), ecsExec), chanType: 2, usecase: usecase, first: map[string][3]string{}}
+	if usecase {
+		if VerifUsecaseFactory == nil {
+			r.Infra("the external half of the engine did not register the use case factory")
+			return
+		}
+		w.uidA = fmt.Sprintf("ua%d-%d", os.Getpid(), ecsExec)
+		if t.Chance(1, 2) {
+			// a person conversation: both peers address it, each by the other's uid
+			w.uidB = fmt.Sprintf("ub%d-%d", os.Getpid(), ecsExec)
+			w.chanType = 1
+			w.channel = channelid.EncodePersonChannel(w.uidA, w.uidB)
+		}
+		r.Config["person_channel"] = w.chanType == 1
+		w.callers = map[uint64]func(context.Context, VerifUsecaseEvent) (VerifUsecaseResult, error){}
+		for _, id := range []uint64{1, 2} {
+			w.callers[id] = VerifUsecaseFactory(&ecsPort{w: w, entry: id}, func() time.Time { return time.UnixMilli(w.nowMs) })
+		}
+	}
 	w.faults = !t.Chance(1, 4)
 	w.max = []int{4, 1, 2}[t.Intn(3)]
 	nMsgs := 1 + t.Intn(3)
@@ -809,6 +1167,20 @@ func runEventCache(r *simkit.Run) {
 		}
 		switch t.Weighted(weights) {
 		case 0:
+			if w.usecase {
+				// the caller talks to either node; a non-leader entry forwards to the leader
+				w.entry = w.leader
+				if t.Chance(1, 3) {
+					w.entry = 3 - w.leader
+				}
+				if t.Chance(1, 12) {
+					w.sendMalformed()
+					break
+				}
+				ev, kind := w.genEvent()
+				w.send(w.leader, ev, kind)
+				break
+			}
 			ev, kind := w.genEvent()
 			target := w.leader
 			if w.faults && t.Chance(1, 10) {
@@ -856,5 +1228,6 @@ func runEventCache(r *simkit.Run) {
 		obs := w.nodes[w.leader].messageEventStreamCache.observation()
 		r.State("ecs", obs.Sessions, obs.OpenLanes > 0, w.paused[w.leader], w.leader)
 	}
-	r.Nontrivial = w.finishes > 0 && (w.losses > 0 || w.rejected > 0 || r.Faults["proposal_failed_before_commit"]+r.Faults["proposal_outcome_lost_after_commit"] > 0)
+	r.Nontrivial = w.finishes > 0 && (w.losses > 0 || w.rejected > 0 || r.Faults["proposal_failed_before_commit"]+r.Faults["proposal_outcome_lost_after_commit"] > 0 ||
+		r.Faults["forward_failed_before_delivery"]+r.Faults["forward_response_lost"]+r.Faults["caller_context_cancelled"] > 0)
 }
